@@ -2,6 +2,8 @@
 mod dec;
 mod enc;
 mod inputs;
+mod mem;
+mod misc;
 mod util;
 
 use dec::*;
@@ -262,8 +264,9 @@ fn dec_random(cx: &mut Ctx) {
     }
 }
 
-/// C10: BOM matrix - every prefix of length 0..3 over the BOM alphabet followed by <= 2 tail bytes, all
-/// cut sets, three modes, capacities around the minimum, both raw sinks, with/without replacement.
+/// C10: BOM matrix - every prefix of length 0..3 over the BOM alphabet followed by class tails, all cut sets of the
+/// first 4 bytes, three modes, with and without an empty final call, capacities around the minimum, both raw
+/// sinks, with/without replacement.  Prefix x cut set x mode x empty-final is exhaustive for all 40 encodings.
 fn dec_bom(cx: &mut Ctx) {
     let names: Vec<&str> = ENC_NAMES.iter().cloned().filter(|n| cx.wants(n)).collect();
     for (ei, name) in names.iter().enumerate() {
@@ -275,27 +278,17 @@ fn dec_bom(cx: &mut Ctx) {
         }
         // tails: bytes with meaning in the nominal encoding
         let alpha = alphabet(name);
-        let tails: Vec<Vec<u8>> = vec![vec![], vec![0x41], vec![alpha[alpha.len() / 2]], vec![0x1B, 0x24], vec![*alpha.last().unwrap(), 0x41]];
+        let mut tails: Vec<Vec<u8>> = vec![vec![], vec![alpha[alpha.len() / 2]]];
+        if core || cx.thorough {
+            tails.extend_from_slice(&[vec![0x41], vec![0x1B, 0x24], vec![*alpha.last().unwrap(), 0x41]]);
+        }
         let mut hcount = 0usize;
         for p in streams.iter() {
             for (ti, t) in tails.iter().enumerate() {
-                if !cx.thorough && !core && (ti + p.len() + ei + cx.seed as usize) % 3 != 0 {
-                    continue;
-                }
                 let mut s = p.clone();
                 s.extend(t);
                 let n = s.len();
-                if n == 0 {
-                    for mode in ALL_MODES.iter() {
-                        for sink in [Sink::Utf8, Sink::Utf16] {
-                            let cfg = hc(e, *mode, sink, false);
-                            let mut capf = |_i: usize| CapSpec::Fixed(sink.min_cap());
-                            run_chunked(&mut cx.sh, &cfg, &s, &[], &mut capf, false, false);
-                        }
-                    }
-                    continue;
-                }
-                let ncuts = 1usize << (n - 1).min(3);
+                let ncuts = if n == 0 { 1 } else { 1usize << (n - 1).min(3) };
                 for mask in 0..ncuts {
                     let mut ends: Vec<usize> = Vec::new();
                     for i in 1..n.min(4) {
@@ -304,16 +297,25 @@ fn dec_bom(cx: &mut Ctx) {
                         }
                     }
                     for mode in ALL_MODES.iter() {
-                        hcount += 1;
-                        let sink = if hcount % 2 == 0 { Sink::Utf8 } else { Sink::Utf16 };
-                        let repl = (hcount / 2) % 2 == 0;
-                        let m = sink.min_cap();
-                        let caps: Vec<usize> = if cx.thorough || core { vec![m, m + 1, m + 2, 64] } else { vec![[m, m + 1, m + 2, 64][(hcount / 4) % 4]] };
-                        for c in caps {
-                            let mut cfg = hc(e, *mode, sink, repl);
-                            cfg.latin1 = if hcount % 3 == 0 { 1 } else { 0 };
-                            let mut capf = |_i: usize| CapSpec::Fixed(c);
-                            run_chunked(&mut cx.sh, &cfg, &s, &ends, &mut capf, hcount % 4 == 1, false);
+                        for empty_last in [false, true] {
+                            hcount += 1;
+                            let sink = if (hcount + ti + ei) % 2 == 0 { Sink::Utf8 } else { Sink::Utf16 };
+                            let repl = (hcount / 2 + mask) % 2 == 0;
+                            let m = sink.min_cap();
+                            let all = [m, m + 1, m + 2, 64];
+                            let caps: Vec<usize> = if cx.thorough {
+                                all.to_vec()
+                            } else if core {
+                                vec![all[(hcount / 4) % 4], all[(hcount / 4 + 1 + hcount % 3) % 4]]
+                            } else {
+                                vec![all[(hcount / 4 + cx.seed as usize) % 4]]
+                            };
+                            for c in caps {
+                                let mut cfg = hc(e, *mode, sink, repl);
+                                cfg.latin1 = if hcount % 3 == 0 { 1 } else { 0 };
+                                let mut capf = |_i: usize| CapSpec::Fixed(c);
+                                run_chunked(&mut cx.sh, &cfg, &s, &ends, &mut capf, empty_last, false);
+                            }
                         }
                     }
                 }
@@ -697,6 +699,15 @@ fn main() {
     let seed = arg_usize(&args, "--seed", 1) as u64;
     let thorough = arg_val(&args, "--tier").map(|t| t == "thorough").unwrap_or(false);
     let only = arg_val(&args, "--only");
+    if args.iter().any(|a| a == "--force-scalar") {
+        #[cfg(feature = "hooks")]
+        encoding_rs::verif_hooks::set_force_scalar_utf8_validation(true);
+        #[cfg(not(feature = "hooks"))]
+        {
+            eprintln!("--force-scalar needs the harness built with --features hooks");
+            std::process::exit(2);
+        }
+    }
     let _ = OVERRIDES.set(Overrides {
         sinks: arg_val(&args, "--sinks").map(|v| v.split(',').map(|x| x.to_string()).collect()),
         repl: arg_val(&args, "--repl").map(|v| v == "on"),
@@ -718,6 +729,11 @@ fn main() {
         "enc-cutsets" => enc_cutsets(&mut cx),
         "enc-random" => enc_random(&mut cx),
         "enc-replay" => enc::replay(&mut cx.sh, &arg_val(&args, "--in").expect("--in FILE")),
+        "mem" => mem::mem(&mut cx, &arg_val(&args, "--which").unwrap_or_else(|| "all".to_string())),
+        "labels" => misc::labels(&mut cx, &arg_val(&args, "--data").unwrap_or_else(|| "/verif/spec/data".to_string())),
+        "oneshot" => misc::oneshot(&mut cx),
+        "meta" => misc::meta(&mut cx),
+        "forbom" => misc::forbom(&mut cx),
         "dec-replay" => dec::replay(&mut cx.sh, &arg_val(&args, "--in").expect("--in FILE")),
         _ => {
             eprintln!("unknown profile {}", profile);
